@@ -69,20 +69,23 @@ func (o *oracles) checkComplete(v *ViewSig, processed []string, what string) {
 	seenID := map[uint64]bool{}
 	for _, sl := range v.Streams {
 		if seenID[sl.ID] {
-			o.violate("complete", "duplicate-id", fmt.Sprintf("%s: stream id %d listed twice", what, sl.ID))
-			return
+			if o.violate("complete", "duplicate-id", fmt.Sprintf("%s: stream id %d listed twice", what, sl.ID)) {
+				return
+			}
 		}
 		seenID[sl.ID] = true
 		if want[sl.Key] == 0 {
-			o.violate("complete", "wrong-version", fmt.Sprintf("%s: stream %d (%s, %d bytes, %d packets) is not what a one-shot import of %v contains (stale or foreign version)", what, sl.ID, sl.Tuple, sl.Bytes, sl.Packets, processed))
-			return
+			if o.violate("complete", "wrong-version", fmt.Sprintf("%s: stream %d (%s, %d bytes, %d packets) is not what a one-shot import of %v contains (stale or foreign version)", what, sl.ID, sl.Tuple, sl.Bytes, sl.Packets, processed)) {
+				return
+			}
 		}
 		want[sl.Key]--
 	}
 	for _, s := range ref {
 		if want[s.ContentKey()] > 0 {
-			o.violate("complete", "missing-stream", fmt.Sprintf("%s: a stream of the processed captures %v is missing: %s %s:%d->%s:%d (%d+%d bytes)", what, processed, s.Proto, s.ClientIP, s.ClientPort, s.ServerIP, s.ServerPort, len(s.Data[0]), len(s.Data[1])))
-			return
+			if o.violate("complete", "missing-stream", fmt.Sprintf("%s: a stream of the processed captures %v is missing: %s %s:%d->%s:%d (%d+%d bytes)", what, processed, s.Proto, s.ClientIP, s.ClientPort, s.ServerIP, s.ServerPort, len(s.Data[0]), len(s.Data[1]))) {
+				return
+			}
 		}
 	}
 	o.s.res.Count("c10_complete_checks", 1)
@@ -111,8 +114,9 @@ func (o *oracles) viewOpened(op Op, r OpResult) {
 		return
 	}
 	if v.Err != "" {
-		o.violate("view", "view-error", "opening a view failed: "+v.Err)
-		return
+		if o.violate("view", "view-error", "opening a view failed: "+v.Err) {
+			return
+		}
 	}
 	o.checkComplete(v, hv.known, fmt.Sprintf("view %d opened at step %d", op.V, o.s.stepNo))
 }
@@ -127,12 +131,14 @@ func (o *oracles) viewRead(op Op, r OpResult) {
 		return
 	}
 	if v.Err != "" {
-		o.violate("view", "view-error", fmt.Sprintf("reading view %d (opened at step %d) failed: %s", op.V, hv.openStep, v.Err))
-		return
+		if o.violate("view", "view-error", fmt.Sprintf("reading view %d (opened at step %d) failed: %s", op.V, hv.openStep, v.Err)) {
+			return
+		}
 	}
 	if h := v.Hash(); h != hv.hash {
-		o.violate("stable", "unstable:"+diffKind(hv.first, v), fmt.Sprintf("view %d opened at step %d answers differently now: %s", op.V, hv.openStep, diffViews(hv.first, v)))
-		return
+		if o.violate("stable", "unstable:"+diffKind(hv.first, v), fmt.Sprintf("view %d opened at step %d answers differently now: %s", op.V, hv.openStep, diffViews(hv.first, v))) {
+			return
+		}
 	}
 	o.s.res.Count("c10_stable_checks", 1)
 	if len(o.s.steps) > 0 {
@@ -208,38 +214,45 @@ func (o *oracles) processed() []string {
 
 func (o *oracles) compareMerge(pre, post *ViewSig) {
 	if pre.Err != "" || post.Err != "" {
-		o.violate("merge", "view-error", fmt.Sprintf("view around merge failed: %q / %q", pre.Err, post.Err))
-		return
+		if o.violate("merge", "view-error", fmt.Sprintf("view around merge failed: %q / %q", pre.Err, post.Err)) {
+			return
+		}
 	}
 	if len(pre.Streams) != len(post.Streams) {
-		o.violate("merge", "stream-set", fmt.Sprintf("merge changed the number of visible streams %d -> %d (files %v -> %v)", len(pre.Streams), len(post.Streams), pre.Indexes, post.Indexes))
-		return
+		if o.violate("merge", "stream-set", fmt.Sprintf("merge changed the number of visible streams %d -> %d (files %v -> %v)", len(pre.Streams), len(post.Streams), pre.Indexes, post.Indexes)) {
+			return
+		}
 	}
 	for i := range pre.Streams {
 		x, y := pre.Streams[i], post.Streams[i]
 		if x.ID != y.ID {
-			o.violate("merge", "stream-set", fmt.Sprintf("merge changed visible ids: %d -> %d", x.ID, y.ID))
-			return
+			if o.violate("merge", "stream-set", fmt.Sprintf("merge changed visible ids: %d -> %d", x.ID, y.ID)) {
+				return
+			}
 		}
 		if x.Key != y.Key {
-			o.violate("merge", "stream-content", fmt.Sprintf("merge changed stream %d (%s): content/metadata/packet references differ (files %v -> %v)", x.ID, x.Tuple, pre.Indexes, post.Indexes))
-			return
+			if o.violate("merge", "stream-content", fmt.Sprintf("merge changed stream %d (%s): content/metadata/packet references differ (files %v -> %v)", x.ID, x.Tuple, pre.Indexes, post.Indexes)) {
+				return
+			}
 		}
 		if fmt.Sprint(x.Tags) != fmt.Sprint(y.Tags) {
-			o.violate("merge", "tags", fmt.Sprintf("merge changed tags of stream %d: %v -> %v", x.ID, x.Tags, y.Tags))
-			return
+			if o.violate("merge", "tags", fmt.Sprintf("merge changed tags of stream %d: %v -> %v", x.ID, x.Tags, y.Tags)) {
+				return
+			}
 		}
 	}
 	for _, q := range sortedKeys(pre.Search) {
 		if fmt.Sprint(pre.Search[q]) != fmt.Sprint(post.Search[q]) {
-			o.violate("merge", "search", fmt.Sprintf("merge changed result of %q: %v -> %v (files %v -> %v)", q, pre.Search[q], post.Search[q], pre.Indexes, post.Indexes))
-			return
+			if o.violate("merge", "search", fmt.Sprintf("merge changed result of %q: %v -> %v (files %v -> %v)", q, pre.Search[q], post.Search[q], pre.Indexes, post.Indexes)) {
+				return
+			}
 		}
 	}
 	for _, q := range sortedKeys(pre.SErr) {
 		if pre.SErr[q] != post.SErr[q] {
-			o.violate("merge", "search", fmt.Sprintf("merge changed error of %q: %q -> %q", q, pre.SErr[q], post.SErr[q]))
-			return
+			if o.violate("merge", "search", fmt.Sprintf("merge changed error of %q: %q -> %q", q, pre.SErr[q], post.SErr[q])) {
+				return
+			}
 		}
 	}
 	o.s.res.Count("c07_merge_checks", 1)
@@ -267,8 +280,9 @@ func (o *oracles) checkRefcounts(final bool) {
 	for _, f := range st.Indexes {
 		served[f] = true
 		if !onDisk[f] {
-			o.violate("refcount", "served-file-missing", fmt.Sprintf("served index file %s is not on disk", f))
-			return
+			if o.violate("refcount", "served-file-missing", fmt.Sprintf("served index file %s is not on disk", f)) {
+				return
+			}
 		}
 	}
 	viewCount := map[string]uint{}
@@ -277,8 +291,9 @@ func (o *oracles) checkRefcounts(final bool) {
 		for _, f := range hv.first.Indexes {
 			viewCount[f]++
 			if !onDisk[f] {
-				o.violate("refcount", "view-file-deleted", fmt.Sprintf("index file %s of view %d (opened at step %d) was deleted while the view is open", f, vn, hv.openStep))
-				return
+				if o.violate("refcount", "view-file-deleted", fmt.Sprintf("index file %s of view %d (opened at step %d) was deleted while the view is open", f, vn, hv.openStep)) {
+					return
+				}
 			}
 		}
 	}
@@ -293,22 +308,26 @@ func (o *oracles) checkRefcounts(final bool) {
 			want++
 		}
 		if st.Used[f] < want {
-			o.violate("refcount", "undercount", fmt.Sprintf("index file %s: use count %d < %d holders (served=%v, open views=%d)", f, st.Used[f], want, served[f], viewCount[f]))
-			return
+			if o.violate("refcount", "undercount", fmt.Sprintf("index file %s: use count %d < %d holders (served=%v, open views=%d)", f, st.Used[f], want, served[f], viewCount[f])) {
+				return
+			}
 		}
 		if !jobHolds && st.Used[f] != want {
-			o.violate("refcount", "leak", fmt.Sprintf("index file %s: no job exists, use count %d but %d holders (served=%v, open views=%d)", f, st.Used[f], want, served[f], viewCount[f]))
-			return
+			if o.violate("refcount", "leak", fmt.Sprintf("index file %s: no job exists, use count %d but %d holders (served=%v, open views=%d)", f, st.Used[f], want, served[f], viewCount[f])) {
+				return
+			}
 		}
 		if !jobHolds && !served[f] && viewCount[f] == 0 {
-			o.violate("refcount", "garbage-file", fmt.Sprintf("index file %s is neither served nor held by a view and no job is running, but it still exists", f))
-			return
+			if o.violate("refcount", "garbage-file", fmt.Sprintf("index file %s is neither served nor held by a view and no job is running, but it still exists", f)) {
+				return
+			}
 		}
 	}
 	for f, n := range st.Used {
 		if !onDisk[f] && n > 0 {
-			o.violate("refcount", "counted-file-missing", fmt.Sprintf("index file %s has use count %d but is not on disk", f, n))
-			return
+			if o.violate("refcount", "counted-file-missing", fmt.Sprintf("index file %s has use count %d but is not on disk", f, n)) {
+				return
+			}
 		}
 	}
 	// every read through every held view must still succeed and be identical
@@ -320,17 +339,20 @@ func (o *oracles) checkRefcounts(final bool) {
 			if r.View != nil {
 				msg = r.View.Err
 			}
-			o.violate("view-read", "read-failed", fmt.Sprintf("reading view %d (opened at step %d, files %v) failed: %s", vn, hv.openStep, hv.first.Indexes, msg))
-			return
+			if o.violate("view-read", "read-failed", fmt.Sprintf("reading view %d (opened at step %d, files %v) failed: %s", vn, hv.openStep, hv.first.Indexes, msg)) {
+				return
+			}
 		}
 		if len(r.View.Streams) != len(hv.first.Streams) {
-			o.violate("view-read", "read-differs", fmt.Sprintf("view %d returns %d streams, %d when opened", vn, len(r.View.Streams), len(hv.first.Streams)))
-			return
+			if o.violate("view-read", "read-differs", fmt.Sprintf("view %d returns %d streams, %d when opened", vn, len(r.View.Streams), len(hv.first.Streams))) {
+				return
+			}
 		}
 		for i := range r.View.Streams {
 			if r.View.Streams[i].Key != hv.first.Streams[i].Key {
-				o.violate("view-read", "read-differs", fmt.Sprintf("view %d: stream %d reads differently than when the view was opened", vn, r.View.Streams[i].ID))
-				return
+				if o.violate("view-read", "read-differs", fmt.Sprintf("view %d: stream %d reads differently than when the view was opened", vn, r.View.Streams[i].ID)) {
+					return
+				}
 			}
 		}
 		o.s.res.Count("c13_view_rereads", 1)
@@ -351,8 +373,9 @@ func (o *oracles) checkRefcounts(final bool) {
 		total += n
 	}
 	if o.status != nil && (o.status.IndexLockCount != locks || locks != total) {
-		o.violate("refcount", "lockcount", fmt.Sprintf("at quiescence IndexLockCount=%d, sum of use counts=%d, holders=%d (served %d + view files)", o.status.IndexLockCount, locks, total, len(st.Indexes)))
-		return
+		if o.violate("refcount", "lockcount", fmt.Sprintf("at quiescence IndexLockCount=%d, sum of use counts=%d, holders=%d (served %d + view files)", o.status.IndexLockCount, locks, total, len(st.Indexes))) {
+			return
+		}
 	}
 	// release everything: the directory must shrink to the served files
 	for _, vn := range sortedIntKeys(o.held) {
@@ -363,12 +386,14 @@ func (o *oracles) checkRefcounts(final bool) {
 	st = o.state
 	dir = listDir(o.s.dirs.Index, ".idx")
 	if fmt.Sprint(sortedCopy(st.Indexes)) != fmt.Sprint(dir) {
-		o.violate("refcount", "dir-not-served", fmt.Sprintf("after releasing all views the index directory holds %v, the service serves %v", dir, sortedCopy(st.Indexes)))
-		return
+		if o.violate("refcount", "dir-not-served", fmt.Sprintf("after releasing all views the index directory holds %v, the service serves %v", dir, sortedCopy(st.Indexes))) {
+			return
+		}
 	}
 	if o.status != nil && int(o.status.IndexLockCount) != o.status.IndexCount {
-		o.violate("refcount", "lockcount", fmt.Sprintf("after releasing all views IndexLockCount=%d IndexCount=%d", o.status.IndexLockCount, o.status.IndexCount))
-		return
+		if o.violate("refcount", "lockcount", fmt.Sprintf("after releasing all views IndexLockCount=%d IndexCount=%d", o.status.IndexLockCount, o.status.IndexCount)) {
+			return
+		}
 	}
 	o.s.res.Count("c13_quiescent_checks", 1)
 }
@@ -412,8 +437,9 @@ func (o *oracles) checkConverters(final bool) {
 			}
 			o.s.res.Count("c16_output_checks", 1)
 			if d != digest[id] {
-				o.violate("convert", "stale-output", fmt.Sprintf("converter %s: cached output of stream %d was made for payload %s, the stream's current payload is %s", cn, id, d, digest[id]))
-				return
+				if o.violate("convert", "stale-output", fmt.Sprintf("converter %s: cached output of stream %d was made for payload %s, the stream's current payload is %s", cn, id, d, digest[id])) {
+					return
+				}
 			}
 		}
 	}
@@ -431,8 +457,9 @@ func (o *oracles) checkConverters(final bool) {
 					continue // mark on a stream that does not exist
 				}
 				if _, ok := v.Conv[cn][uint64(s)]; !ok {
-					o.violate("convert", "missing-output", fmt.Sprintf("at quiescence stream %d matches tag %s with converter %s attached but has no converter output", s, t.Name, cn))
-					return
+					if o.violate("convert", "missing-output", fmt.Sprintf("at quiescence stream %d matches tag %s with converter %s attached but has no converter output", s, t.Name, cn)) {
+						return
+					}
 				}
 				o.s.res.Count("c16_presence_checks", 1)
 			}
